@@ -10,7 +10,7 @@ pointer it just made is what the correspondence run checks.  A value remembers i
 operator changes the value without changing its address (`slice` on arrays/vectors): `&` takes the address of the image.
 
 A slice whose range does not fit (`left > len`, `right < left`, a pointer to a zero-sized type) has no result
-(`Res.none`); before BugStalker 6b37ef0 / f8cae1d these were panics (`items.drain(..left)` past the end,
+(`Res.none`); before BugStalker ccf13b4 / d97590b these were panics (`items.drain(..left)` past the end,
 `right - left` below zero, `chunks(0)`: C08's repaired defects).  `Res.panic` is still threaded through `eval`,
 no operator produces it any more.
 Core Lean only.
